@@ -143,6 +143,16 @@ fn main() {
                     }
                 }
             }
+            // a replayed hang must be reported as one, not hang the replayer
+            {
+                let p2 = path.clone();
+                std::thread::spawn(move || {
+                    std::thread::sleep(std::time::Duration::from_secs(25));
+                    println!("VIOLATION property=? replay={}", p2);
+                    println!("  class=hang detail=the replayed run did not return within 25 s");
+                    std::process::exit(1);
+                });
+            }
             match runner::replay_file(&lookup, &path) {
                 Ok((pid, Some(v), expected)) => {
                     println!("VIOLATION property={} replay={}", pid, path);
